@@ -183,13 +183,23 @@ func vfC36Run(v *vfT, c vfC36Case) {
 			v.Violation("C36/reader/header", "header read back as %+v, written %+v", rh, hdr)
 		}
 	}
-	for i, a := range accepted {
+	// read everything first and keep the packets: what Next returned must stay what it was
+	// (a reader that hands out views of an internal buffer passes a compare-as-you-go loop)
+	var read []rtpdump.Packet
+	for i := range accepted {
 		p, err := r.Next()
 		if err != nil {
 			v.Violation("C36/reader/next", "Next #%d failed on a valid file: %v", i, err)
 		}
+		if !bytes.Equal(p.Payload, accepted[i].pay) {
+			v.Violation("C36/reader/payload", "packet %d: payload read back with %d bytes, written %d", i, len(p.Payload), len(accepted[i].pay))
+		}
+		read = append(read, p)
+	}
+	for i, a := range accepted {
+		p := read[i]
 		if !bytes.Equal(p.Payload, a.pay) {
-			v.Violation("C36/reader/payload", "packet %d: payload read back with %d bytes, written %d", i, len(p.Payload), len(a.pay))
+			v.Violation("C36/reader/payload-changed-after-later-reads", "packet %d was correct when Next returned it and differs after the rest of the file was read (payload aliases the reader's buffer?)", i)
 		}
 		in := a.p.Len >= 1 && a.p.Len <= 65527 && a.p.OffsetMs >= 0 && a.p.OffsetMs <= 0xFFFFFFFF
 		if in && (p.IsRTCP != a.p.IsRTCP || p.Offset != time.Duration(a.p.OffsetMs)*time.Millisecond) {
@@ -201,6 +211,9 @@ func vfC36Run(v *vfT, c vfC36Case) {
 	}
 	if allIn && len(c.Pkts) >= 2 {
 		v.NonTrivial()
+	}
+	if len(file) > 8192 && len(c.Pkts) >= 40 {
+		v.Label("many-small-packets-file>8KiB")
 	}
 	if !allIn {
 		v.NonTrivial()
@@ -222,8 +235,20 @@ func vfC36Gen(v *vfT) vfC36Case {
 	c.StartUsec = rapid.Int64Range(0, 999999).Draw(t, "usec")
 	c.Port = rapid.Uint16().Draw(t, "port")
 	n := rapid.IntRange(0, 6).Draw(t, "npkts")
+	many := rapid.IntRange(0, 3).Draw(t, "many") == 0
+	if many {
+		n = rapid.IntRange(40, 200).Draw(t, "npkts-many")
+	}
 	for i := 0; i < n; i++ {
 		var p vfPkt
+		if many {
+			p.Len = rapid.IntRange(1, 200).Draw(t, "len-small")
+			p.OffsetMs = rapid.Int64Range(0, 100000).Draw(t, "off")
+			p.IsRTCP = rapid.Bool().Draw(t, "rtcp")
+			p.Fill = rapid.Byte().Draw(t, "fill")
+			c.Pkts = append(c.Pkts, p)
+			continue
+		}
 		p.Len = rapid.OneOf(rapid.IntRange(1, 2000), rapid.IntRange(1, 200), rapid.IntRange(65500, 65527),
 			rapid.SampledFrom([]int{1, 2, 7, 8, 9, 255, 256, 65519, 65520, 65526, 65527}),
 			rapid.SampledFrom([]int{0, 65528, 65529, 65535, 65536, 65537, 70000})).Draw(t, "len")
